@@ -20,3 +20,10 @@ def check(run, only=None):
         out = fw.merge_worker_results(results, RULE.format(st=stride, m=params["max_len"]))
         out["extra"]["grammars"] = len(gs)
         run.add_bounded(out)
+    if only in (None, "P"):
+        from vlib.props import pcommon
+        from vlib.companions import parserfuncs as pf
+        pcommon.add_proof(run, "C14", ["parglare.parser.Parser._skipws"], [pf.run_layout],
+                          "_skipws: position never decreases; layout_content_ahead == input[old:new]; ws parameter: only ws "
+                          "characters skipped, maximally; LAYOUT rule: position and content as reported by the sub-parser "
+                          "(trusted); no layout configured: nothing moves")
